@@ -455,8 +455,9 @@ EPOS = [
     ('for-body', ['{A} = {A} - 1', 'for {X} in ys:', '    {T} = {M}', '    {C} = {C} + 1'], 'return ({A}, {C}, xs)'),
     ('after-mut', ['for {X} in ys:', '    xs[len(xs) - 1] = {X} + {C}', '    {C} = {C} + 1', '{A} = {M}'],
      'return ({A}, {C}, xs)'),
-    ('while-cond', ['{K} = 0', '{A} = {M}', 'while {K} < 3 and len(xs) > 0:', '    {K} = {K} + 1', '    xs[0] = xs[0] + 1',
-                    '    {A} = {M}'], 'return ({A}, {K}, xs)'),
+    # the counter steps under the exact integer context so the loop ends under any ambient context
+    ('while-body', ['{K} = 0', '{A} = {M}', 'while {K} < 3 and len(xs) > 0:', '    with fp.INTEGER:',
+                    '        {K} = {K} + 1', '    xs[0] = xs[0] + 1', '    {A} = {M}'], 'return ({A}, {K}, xs)'),
 ]
 
 
